@@ -5,7 +5,7 @@ from harness.props import base
 PROP = {
     "id": "C12",
     "quick_n": 450,
-    "thorough_n": 8000,
+    "thorough_n": 4500,
     "rule": "one program = a single-path tree (Bin, SparselyBin, CentrallyBin, IrregularlyBin, "
             "Categorize, Select nested over any leaf) whose quantities at random depths are "
             "fault-injectable (raise / wrong return type, switched by a datum field), a stream with "
